@@ -18,7 +18,8 @@ import pegdump
 WF_DEF = """
 Definition show_wf (g : grammar) (c : config) (mm : list ninfo) (tbl : list ((nat * nat) * nat)) (fuel : nat) (input : list N) : string :=
   match run g c (orc_of tbl) false fuel input with
-  | Parsed (RTree (NT _ (t :: _))) => (if wf_tree t then "T" else "F") ++ (if asg_placed mm false t then "T" else "F")
+  | Parsed (RTree (NT _ (t :: _))) => (if wf_tree t then "T" else "F") ++ (if asg_placed mm false t then "T" else "F") ++
+      (if (wfg g 24 && nosep g && eof_ok g && negb (existsb (fun e => Nat.eqb (snd e) 0) tbl))%bool then "T" else "F")
   | _ => "-"
   end.
 """
@@ -76,7 +77,8 @@ def run(chk):
     cases = bc.gen_cases(chk, n, per, files=True)
     results = bc.run_impl(cases)
     from props.c01 import spec_expr, SPEC_IMPORTS, spec_extents, classify_dump, feature_tags, nid_class   # shared with C01
-    vals, errs = bc.eval_model("C06", results, [bc.build_expr, wf_expr, spec_expr], imports=SPEC_IMPORTS + WF_DEF)
+    vals, errs = bc.eval_model("C06", results, [bc.build_expr, wf_expr, spec_expr],
+                                imports=SPEC_IMPORTS.replace("Model.Spec.", "Model.Spec Proofs.SpecProofs Proofs.SpecSepProofs Proofs.SpecWf.", 1) + WF_DEF)
     disagreements, failures = [], []
     if errs:
         disagreements.append({"case": "coq evaluation", "model": errs[:2]})
@@ -117,7 +119,12 @@ def run(chk):
                         disagreements.append({"case": dict(cinfo, load="file"), "impl": fm, "model": mf})
             # ---- property oracle on the implementation
             wf = mv[1][:1]
-            if mv[1][1:] == "F":
+            if mv[1][2:3] == "T" and wf == "F":
+                # C06_run_wf: in the class, without separators, EOF only at the top, no empty regex match: the tree is well formed
+                disagreements.append({"case": cinfo, "impl": "tree not well formed although the hypotheses of C06_run_wf hold", "model": mv[1]})
+            if mv[1][2:3] == "T":
+                chk.stat("trees covered by C06_run_wf")
+            if mv[1][1:2] == "F":
                 # hypothesis of C06_objects_nested_ordered: assignment nodes are children of common-rule nodes
                 disagreements.append({"case": cinfo, "impl": "an assignment node outside a common-rule node in the parse tree", "model": mv[1]})
             chk.stat("model tree: %s" % {"T": "well-formed", "F": "not well-formed", "-": "no tree"}.get(wf, "?"))
